@@ -1020,7 +1020,7 @@ TIERS = {
     'thorough': {'runs': 600000, 'wall_cap': 3000},
 }
 EXPECTED_PROBES = ['insert-in-the-middle', 'auto-category-added', 'filter-of-derived', 'extend-of-derived',
-                   'extend-merged-into-auto-category']
+                   'extend-merged-into-auto-category', 'spec-object-registered-again', 'real-spec-objects']
 
 STATES_MEASURE = ('distinct canonical model states reached: category order, contents by spec tag, unknown-specs, frozen flag')
 
